@@ -8,6 +8,7 @@ package go9p
 
 import (
 	"fmt"
+	"io"
 	"log"
 	"net"
 	"sync"
@@ -154,6 +155,9 @@ func (clnt *Clnt) recv() {
 
 		n, oerr := clnt.conn.Read(buf[pos:])
 		if oerr != nil || n == 0 {
+			if oerr == nil {
+				oerr = io.ErrNoProgress
+			}
 			err = &Error{oerr.Error(), EIO}
 			clnt.Lock()
 			clnt.err = err
@@ -165,6 +169,14 @@ func (clnt *Clnt) recv() {
 		pos += n
 		for pos > 4 {
 			sz, _ := Gint32(buf)
+			if uint64(sz) > uint64(atomic.LoadUint32(&clnt.Msize))*8 {
+				// can never fit into the receive buffer
+				clnt.Lock()
+				clnt.err = &Error{"message too large", EINVAL}
+				_ = clnt.conn.Close()
+				clnt.Unlock()
+				goto closed
+			}
 			if pos < int(sz) {
 				if len(buf) < int(sz) {
 					b := make([]byte, atomic.LoadUint32(&clnt.Msize)*8)
